@@ -397,3 +397,64 @@ class Auto:
             if not self.dead(self.step(state, s)):
                 return True
         return False
+
+
+# ------------------------------------------------------------------------------------------------
+# second, independent matcher (positions reachable after matching a surface regex), used to
+# cross-check the derivative automaton on all short class words
+
+def ends(r, word, starts, part):
+    """set of end positions of matches of surface regex r in `word` (list of class ids, EOF allowed
+    as last symbol) beginning at any position in `starts`"""
+    k = r[0]
+    if k in ('chr', 'set', 'any', 'builtin', 'diff'):
+        cs = part.classes_of_set(charset(r))
+        return {i + 1 for i in starts if i < len(word) and word[i] in cs}
+    if k == 'str':
+        cur = set(starts)
+        for cp in r[1]:
+            c = part.class_of(cp)
+            cur = {i + 1 for i in cur if i < len(word) and word[i] == c}
+        return cur
+    if k == 'eof':
+        return {i + 1 for i in starts if i < len(word) and word[i] == EOF}
+    if k == 'var':
+        return ends(r[2], word, starts, part)
+    if k == 'cat':
+        return ends(r[2], word, ends(r[1], word, starts, part), part)
+    if k == 'alt':
+        return ends(r[1], word, starts, part) | ends(r[2], word, starts, part)
+    if k == 'opt':
+        return set(starts) | ends(r[1], word, starts, part)
+    if k in ('star', 'plus'):
+        cur = ends(r[1], word, starts, part) if k == 'plus' else set(starts)
+        seen = set(cur)
+        frontier = set(cur)
+        while frontier:
+            nxt = ends(r[1], word, frontier, part) - seen
+            seen |= nxt
+            frontier = nxt
+        return seen
+    raise ValueError(r)
+
+
+def crosscheck(r, part, maxlen=3):
+    """derivative automaton vs position-set matcher on all class words up to maxlen (+ optional EOF);
+    -> None or a disagreeing word"""
+    import itertools
+    core = compile_re(r, part)
+    syms = list(range(part.n))
+    if part.n ** maxlen > 3000:
+        maxlen = 2
+    for n in range(maxlen + 1):
+        for w in itertools.product(syms, repeat=n):
+            for tail in ((), (EOF,)):
+                word = list(w) + list(tail)
+                d = core
+                for s in word:
+                    d = deriv(d, s)
+                a = nullable(d)
+                b = len(word) in ends(r, word, {0}, part)
+                if a != b:
+                    return word
+    return None
